@@ -15,7 +15,7 @@ class RefPeer(Peer):
     wants_latency_choice = False
 
     def __init__(self, bus, name, addr, dll, grants=None, holds=(0,), rlat=(1e-3,), dt_gap=(0.0,),
-                 bam_gap=(0.05,)):
+                 bam_gap=(0.05,), hold_gap=(0.4,)):
         super().__init__(bus, name, self._on)
         self.addr = addr
         self.fd = dll == 'j1939-22'
@@ -25,6 +25,7 @@ class RefPeer(Peer):
         self.rlat = list(rlat)
         self.dt_gap = list(dt_gap)
         self.bam_gap = list(bam_gap)
+        self.hold_gap = list(hold_gap)  # time between two consecutive CTS of a hold (the standard's Th: at most 0.5 s)
         self.rlat_seq = None            # optional: reply latencies consumed one per reply decision (scripted peer timing)
         self.rx = {}                    # responder sessions
         self.tx = None                  # originator session
@@ -128,7 +129,8 @@ class RefPeer(Peer):
                 self.cm(s['o'], R.tp22_cm(1, s['sess'], 0xFFFFFF, s['next'], 0, 0, s['pgn']))
             else:
                 self.cm(s['o'], R.tp21_cts(0, 0xFF, s['pgn']))
-            self.later(0.4, lambda: self.hold_then_cts(s, holds - 1))
+            gap = self.w.choose('p.holdgap', self.hold_gap)
+            self.later(gap, lambda: self.hold_then_cts(s, holds - 1))
             return
         remaining = s['n'] - s['next'] + 1
         top = min(s['limit'], remaining)
